@@ -11,7 +11,7 @@ import glob, json, os, shutil, subprocess, sys, tempfile
 VERIF = os.path.dirname(os.path.dirname(os.path.abspath(__file__)))
 REPO = os.environ.get("SELFTEST_REPO", "/repo")
 ALL = ["C01", "C03", "C04", "C05", "C06", "C07", "C08", "C09", "C10", "C11", "C12", "C13", "C14", "C15", "C16", "C17", "C18", "C19", "C20"]
-DOC_MISS = {"C09-endstringcommented-guard-lost", "C09c-qualified-macro-special-case-2024", "C08c-leading-blank-skip-only-strips-bare-newlines", "C19c-hunk-body-tracking-miscounts-stripped-blank-context"}
+DOC_MISS = {"C09d-continued-line-predicate-changed-on-2024-branch", "C09-endstringcommented-guard-lost", "C09c-qualified-macro-special-case-2024", "C08c-leading-blank-skip-only-strips-bare-newlines", "C19c-hunk-body-tracking-miscounts-stripped-blank-context"}
 
 
 def scratch(patch=None, reverse_commit=None):
